@@ -40,9 +40,11 @@
 (* forward move use mode c(u) and the reverse move c(u').  The harness        *)
 (* replays 2- and 3-sweep behaviours with K = 2 (step-size adaptation pinned  *)
 (* to a no-op) and requires runner.assignments to be unchanged.               *)
-(* Not modelled: non-finite log-likelihoods (a NaN / -inf proposal must be a  *)
-(* rejection); pi > 0 everywhere here - that clause is decided at system      *)
-(* level (PSRun traces).                                                      *)
+(* Non-finite log-likelihoods are not part of the lattice chain (pi > 0       *)
+(* everywhere); the intended rule is stated separately (NonFiniteRule below): *)
+(* a proposal whose log-likelihood is -inf or NaN is rejected whatever the    *)
+(* accept uniform, also when the CURRENT log-likelihood is -inf (-inf - -inf  *)
+(* = NaN: rejected).  The harness replays these cases through parallel_mcmc.  *)
 (*                                                                          *)
 (* Init enumerates (case, boundary kinds, table, beta, label); Weights        *)
 (* tabulates the target and the whole matrix P (weight invariants there);    *)
@@ -369,6 +371,19 @@ ProposalUsesLabel ==
     pc \in {"proposed", "folded", "checked", "done"} => prop = Raw(u, Scaled(zs[Len(zs)]))
 LabelFixed == [][lab' = lab]_vars
 SweepCount == sw = Len(hist) + 1 /\ sw <= Cases[ci][9]
+
+\* Non-finite log-likelihoods: classes "fin", "-inf", "nan" of the current (lu) and the proposed (lv) value.
+\* beta*(lv - lu) is NaN when either is NaN or both are -inf, -inf when only lv is -inf, +inf when only lu is -inf.
+LogRatioClass(lu, lv) ==
+    CASE lu = "nan" \/ lv = "nan"        -> "nan"
+      [] lu = "-inf" /\ lv = "-inf"      -> "nan"
+      [] lv = "-inf"                      -> "-inf"
+      [] lu = "-inf"                      -> "+inf"
+      [] OTHER                            -> "fin"
+\* acceptance probability class: a NaN ratio is a REJECTION (alpha = 0), never an acceptance
+AlphaClass(rcls) == CASE rcls = "nan" -> "zero" [] rcls = "-inf" -> "zero" [] rcls = "+inf" -> "one" [] OTHER -> "min(1, exp)"
+ASSUME NonFiniteRule ==
+    \A lu \in {"fin", "-inf", "nan"} : \A lv \in {"-inf", "nan"} : AlphaClass(LogRatioClass(lu, lv)) = "zero"
 
 \* the product form of the proposal weights is the brute-force sum over increment vectors
 Factorised ==
